@@ -264,6 +264,173 @@ def db_method(name, callee, read_only):
     return c
 
 
+# ---- (d) commit / rollback / release ----------------------------------------------------------------------------------
+
+
+def _counting(name, may_raise=True):
+    def model(eng, st, args, kw, node):
+        e = z3.Const(pyvc.fresh_name(name + '_exc'), pyvc.U)
+
+        def ok(s):
+            s.env['n_' + name] = s.env['n_' + name] + 1
+
+        def bad(s):
+            s.env['n_' + name] = s.env['n_' + name] + 1
+            s.env['last_exc'] = e
+
+        alts = [(name + '-ok', None, 'value', None, ok)]
+        if may_raise:
+            alts.append((name + '-fails', None, 'raise', SExc(term=e), bad))
+        raise Fork(node, alts)
+
+    return model
+
+
+def _ensure_future(eng, st, args, kw, node):
+    st.env['n_release'] = st.env['n_release'] + 1
+    st.env['released'] = to_z3(args[0], 'U')
+    return None
+
+
+def aexit_1():
+    rel = z3.Function('release_of', pyvc.U, pyvc.U)
+    return Contract(
+        path=PATH,
+        qualname='Transaction._aexit_1',
+        types={'exc_type': 'U'},
+        self_fields={'conn': 'U', 'conn_context_manager': 'U', '_task_manager': 'U'},
+        spec_funcs={'release_of': (['U'], 'U')},
+        calls={
+            'self.conn.rollback': _counting('rollback'),
+            'self.conn.commit': _counting('commit'),
+            'log.info': lambda eng, st, args, kw, node: None,
+            '_release_connection': lambda eng, st, args, kw, node: rel(to_z3(args[0], 'U')),
+            'self._task_manager.ensure_future': _ensure_future,
+        },
+        ghost_init={'n_rollback': '0', 'n_commit': '0', 'n_release': '0', 'released': 'NOEXC', 'last_exc': 'NOEXC'},
+        consts={'NOEXC': z3.Const('no_exc', pyvc.U)},
+        ensures=[
+            ('rolls-back-and-never-commits-when-the-body-raised', 'implies(old(self.conn) is not None and truthy(exc_type), n_rollback == 1 and n_commit == 0)'),
+            ('commits-and-never-rolls-back-otherwise', 'implies(old(self.conn) is not None and not truthy(exc_type), n_commit == 1 and n_rollback == 0)'),
+            ('nothing-without-a-connection', 'implies(old(self.conn) is None, n_commit == 0 and n_rollback == 0)'),
+            ('connection-dropped-and-release-scheduled-once', 'self.conn is None and self.conn_context_manager is None and n_release == 1 and released == release_of(old(self.conn_context_manager))'),
+        ],
+        raises={'*': True},
+        on_raise=[
+            ('only-a-failing-commit-or-rollback-escapes', 'exc == last_exc and n_commit + n_rollback == 1'),
+            ('never-commits-after-a-failed-body', 'implies(truthy(exc_type), n_commit == 0)'),
+            ('connection-dropped-and-release-scheduled-once', 'self.conn is None and self.conn_context_manager is None and n_release == 1 and released == release_of(old(self.conn_context_manager))'),
+        ],
+        canaries=[('never-commits', 'n_commit == 0'), ('never-rolls-back', 'n_rollback == 0')],
+    )
+
+
+def _truthy_fn(eng, st, args, kw, node):
+    return eng.truthy(args[0])
+
+
+def aexit_passes_type():
+    """Transaction._aexit hands its exc_type to _aexit_1 (through asyncio.shield); TransactionAsyncContextManager.__aexit__
+    hands its exc_type to tx._aexit"""
+    out = []
+
+    def rec(name):
+        def model(eng, st, args, kw, node):
+            eng.oblige(st, 'exc-type-forwarded-unchanged', to_z3(args[0], 'U') == to_z3(st.env['exc_type'], 'U') if args else z3.BoolVal(False))
+            st.env['n_fwd'] = st.env['n_fwd'] + 1
+            return z3.Const(pyvc.fresh_name(name), pyvc.U)
+
+        return model
+
+    out.append(Contract(
+        path=PATH, qualname='Transaction._aexit', types={'exc_type': 'U', 'exc_val': 'U', 'exc_tb': 'U'},
+        calls={'self._aexit_1': rec('coro'), 'asyncio.shield': lambda eng, st, args, kw, node: args[0]},
+        ghost_init={'n_fwd': '0'}, ensures=[('cleanup-invoked-exactly-once', 'n_fwd == 1')], raises={},
+    ))
+    out.append(Contract(
+        path=PATH, qualname='TransactionAsyncContextManager.__aexit__', types={'exc_type': 'U', 'exc_val': 'U', 'exc_tb': 'U'},
+        self_fields={'tx': 'U'}, requires=['self.tx is not None'],
+        calls={'self.tx._aexit': rec('aexit')},
+        ghost_init={'n_fwd': '0'}, ensures=[('cleanup-invoked-exactly-once', 'n_fwd == 1'), ('never-swallows-the-exception', 'result is None')], raises={},
+    ))
+    return out
+
+
+def async_init():
+    def execute(eng, st, args, kw, node):
+        sql = args[0]
+        st.env['n_start'] = st.env['n_start'] + 1
+        st.env['start_sql'] = sql
+        e = z3.Const(pyvc.fresh_name('execute_exc'), pyvc.U)
+        raise Fork(node, [('execute-ok', None, 'value', None, None), ('execute-fails', None, 'raise', SExc(term=e), lambda s: s.env.__setitem__('last_exc', e))])
+
+    def failing(name, value):
+        def model(eng, st, args, kw, node):
+            e = z3.Const(pyvc.fresh_name(name + '_exc'), pyvc.U)
+            raise Fork(node, [(name + '-ok', None, 'value', value(eng, st, args), None), (name + '-fails', None, 'raise', SExc(term=e), lambda s: s.env.__setitem__('last_exc', e))])
+
+        return model
+
+    CM = z3.Const('the_conn_cm', pyvc.U)
+    CONN = z3.Const('the_conn', pyvc.U)
+    rel = z3.Function('release_of', pyvc.U, pyvc.U)
+    cursor = with_model(lambda eng, st, node: [(st.fork(), ('value', SRecord('cursor', {})))], lambda eng, st, exc: [(st, None)])
+    return Contract(
+        path=PATH,
+        qualname='Transaction.async_init',
+        types={'db_pool': 'U', 'read_only': 'bool'},
+        self_fields={'conn': 'U', 'conn_context_manager': 'U', '_task_manager': 'U'},
+        spec_funcs={'release_of': (['U'], 'U')},
+        axioms=['CONN is not None'],
+        calls={
+            'db_pool.acquire': failing('acquire', lambda eng, st, a: CM),
+            'aenter': failing('aenter', lambda eng, st, a: CONN),
+            'DB_CONNECTION_QUEUE_SIZE.inc': lambda eng, st, args, kw, node: None,
+            'DB_CONNECTION_QUEUE_SIZE.dec': lambda eng, st, args, kw, node: None,
+            'SQL_TRANSACTIONS.inc': lambda eng, st, args, kw, node: None,
+            'with:self.conn.cursor': cursor,
+            'cursor.execute': execute,
+            '_release_connection': lambda eng, st, args, kw, node: rel(to_z3(args[0], 'U')),
+            'self._task_manager.ensure_future': _ensure_future,
+        },
+        ghost_init={'n_start': '0', 'start_sql': "''", 'n_release': '0', 'released': 'NOEXC', 'last_exc': 'NOEXC'},
+        consts={'NOEXC': z3.Const('no_exc', pyvc.U), 'CONN': CONN},
+        ensures=[
+            ('transaction-started-exactly-once-before-returning', 'n_start == 1'),
+            ('read-only-flag-selects-the-statement', "start_sql == ('START TRANSACTION READ ONLY;' if read_only else 'START TRANSACTION;')"),
+            ('connection-kept-for-the-body', 'self.conn == CONN and n_release == 0'),
+        ],
+        raises={'*': True},
+        on_raise=[
+            ('raises-the-failure', 'exc == last_exc'),
+            ('failed-start-drops-the-connection-and-schedules-its-release', 'self.conn is None and self.conn_context_manager is None and n_release == 1'),
+        ],
+    )
+
+
+def aenter_cm():
+    def ctor(eng, st, args, kw, node):
+        st.env['n_tx'] = st.env['n_tx'] + 1
+        return SRecord('Transaction', {'tag': z3.Const('new_tx', pyvc.U)})
+
+    def init(eng, st, args, kw, node):
+        e = z3.Const(pyvc.fresh_name('init_exc'), pyvc.U)
+        eng.oblige(st, 'pool-and-read-only-forwarded', z3.And(to_z3(args[0], 'U') == to_z3(st.env['self'].fields['db_pool'], 'U'), eng.truthy(args[1]) == eng.truthy(st.env['self'].fields['read_only'])))
+        raise Fork(node, [('init-ok', None, 'value', None, lambda s: s.env.__setitem__('n_init', s.env['n_init'] + 1)), ('init-fails', None, 'raise', SExc(term=e), lambda s: s.env.__setitem__('last_exc', e))])
+
+    return Contract(
+        path=PATH,
+        qualname='TransactionAsyncContextManager.__aenter__',
+        self_fields={'db_pool': 'U', 'read_only': 'bool', 'tx': 'U', 'task_manager': 'U'},
+        calls={'Transaction': ctor, 'tx.async_init': init},
+        ghost_init={'n_tx': '0', 'n_init': '0', 'last_exc': 'NOEXC'},
+        consts={'NOEXC': z3.Const('no_exc', pyvc.U)},
+        ensures=[('fresh-transaction-initialised-once', 'n_tx == 1 and n_init == 1')],
+        raises={'*': True},
+        on_raise=[('raises-the-failure', 'exc == last_exc')],
+    )
+
+
 def _decorators(fn):
     return [pyast.unparse(d) for d in fn.decorator_list]
 
@@ -303,7 +470,14 @@ def build(ctx):
     for name, (callee, ro) in DB_METHODS.items():
         e = pyvc.Engine(ctx, db_method(name, callee, ro)).run()
         _strict(ctx, e, 'Database.' + name)
+    for c in [aexit_1()] + aexit_passes_type() + [async_init(), aenter_cm()]:
+        c.calls.setdefault('truthy', _truthy_fn)
+        e = pyvc.Engine(ctx, c).run()
+        _strict(ctx, e, c.qualname)
     scans(ctx)
+    import os
+
+    ctx.witness_search = lambda: core.run_native(open(os.path.join(os.path.dirname(__file__), 'native', 'c27_replay.py')).read(), {})
     ctx.assume('pymysql InternalError / OperationalError instances carry (errno, message) in .args (as raised by the driver)')
     ctx.assume('MySQL: ROLLBACK (or closing a connection without COMMIT) discards every write made since START TRANSACTION; stored procedures that issue their own START TRANSACTION/COMMIT are outside this contract')
     ctx.undecided('Database.execute_and_fetchall / select_and_fetchall are async generators and are NOT retried at all (rows may already have been yielded); the property is decided for the transaction decorator and the retrying convenience methods')
